@@ -328,7 +328,7 @@ impl Family for XBundle {
                         _ => (-ts * (1 + r.below(20) as i64), ts * (1 + r.below(20) as i64)),
                     }
                 };
-                format!("B xopen {} {} {} {} {}", i, lo, hi, auth, ts)
+format!("B xopen {} {} {} {} {} {}", i, lo, hi, auth, ts, if r.chance(1, 10) { 1 } else { 0 })
             }
             11..=17 => {
                 let i = pick_index(r, true);
@@ -411,6 +411,19 @@ impl XBundle {
                     }
                 }
                 let data = ::whirlpool::instruction::OpenBundledPosition { bundle_index: i, tick_lower_index: lo as i32, tick_upper_index: hi as i32 }.data();
+                // 7th token (optional): for this instruction the pool REQUIRES non-transferable positions (control flag): a bundled
+                // position, which has no token of its own, must be refused
+                let nt = t.get(7).map_or(false, |x| *x == "1");
+                let pool_before = w.bank.get(&w.pool);
+                if nt {
+                    let mut wp = Whirlpool::try_deserialize(&mut &pool_before.data[..]).unwrap();
+                    wp.reward_infos[1].extension = WhirlpoolExtensionSegmentPrimary::new(WhirlpoolControlFlags::REQUIRE_NON_TRANSFERABLE_POSITION).to_bytes();
+                    wp.reward_infos[2].extension = [0u8; 32];
+                    let mut d = vec![];
+                    wp.try_serialize(&mut d).unwrap();
+                    d.resize(Whirlpool::LEN, 0);
+                    w.bank.set(w.pool, pool_before.owner, pool_before.lamports, d);
+                }
                 let before = w.bank.clone();
                 let bm0 = w.bitmap().unwrap();
                 let (res, out) = w.bank.execute(&metas, &data);
@@ -420,6 +433,9 @@ impl XBundle {
                         ctx.tag("open_ok");
                         if auth == 1 || auth == 2 {
                             ctx.viol(format!("C04 open_bundled_position succeeded without the bundle owner's (or a delegate's) signature (mode {})", auth));
+                        }
+                        if nt {
+                            ctx.viol("C18 open_bundled_position succeeded on a pool that requires non-transferable positions".to_string());
                         }
                         if auth == 4 {
                             ctx.viol("C15/C04 open_bundled_position accepted the token of ANOTHER bundle as this bundle's token".to_string());
@@ -459,6 +475,9 @@ impl XBundle {
                         ctx.tag("open_err");
                         out_line = format!("err {} {}", crate::ix::err_name(&e, &out.logs), w.state_suffix());
                     }
+                }
+                if nt {
+                    w.bank.set(w.pool, pool_before.owner, pool_before.lamports, pool_before.data.clone());
                 }
                 w.clear_delegate();
             }
